@@ -57,6 +57,11 @@ def step_filter(boxes, shape, thr, exact):
             for q, t in qs:
                 if (t != 0 or q != 0) and abs(q - t) <= 1e-7 * max(1.0, abs(q)) and not (t == 0 and q > 1e-7):
                     raise IllConditioned()
+            # a box that TOUCHES the frame from outside has extent exactly 0 here, but the implementation's
+            # normalise / denormalise round trip leaves +-1 ulp: kept or dropped is round-off
+            for lo_, hi_, n_ in ((b[0], b[3], shape[1]), (b[1], b[4], shape[0]), (b[2], b[5], shape[2])):
+                if abs(hi_) <= 1e-9 * max(1.0, n_) or abs(lo_ - n_) <= 1e-9 * max(1.0, n_):
+                    raise IllConditioned()
         if w <= 0 or h <= 0 or d <= 0:
             continue
         area, vol = w * h, w * h * d
